@@ -11,7 +11,8 @@ import io
 import random
 
 from .. import contracts, factlab as fl, filtgen, rsieve
-from ..core import Result, split, guarded
+from ..core import Result, split
+from .. import parserlab as lab
 
 LEVEL = "exploration"
 RULE = ("operation sequences over a pool of 3 names and an alphabet of 42 operations "
@@ -20,7 +21,9 @@ RULE = ("operation sequences over a pool of 3 names and an alphabet of 42 operat
         "/ 4 (thorough) from the empty set; the bytes-name twins of those operations (every "
         "name handed over as UTF-8 bytes): ALL sequences up to length 2 over both alphabets "
         "and all of length 3 (4) whose last operation is a twin; plus random sequences up to "
-        "length 25 mixing both. "
+        "length 25 mixing both; plus pairs of live sets (two fresh ones, or two loaded from the "
+        "SAME Parser result of a saved script with disabled filters) receiving 3-14 operations "
+        "alternately: each follows its own model and the untouched one must not change. "
         "Non-trivial = sequence in which at least one operation changed the set; distinct = "
         "distinct operation sequences.")
 ASSUMPTIONS = [
@@ -30,9 +33,11 @@ ASSUMPTIONS = [
 ]
 EXHAUSTIVE = {"quick": True, "thorough": True}
 FLOORS = {
-    "quick": {"sequences": 70000, "sequences-with-bytes-names": 70000, "monitor:invariant.names_unique": 200000,
+    "quick": {"sequences": 70000, "sequences-with-bytes-names": 70000,
+              "pair-sequences:same-parser-result": 1800, "pair-sequences:fresh": 1800, "monitor:invariant.names_unique": 200000,
               "lockstep-steps": 150000},
-    "thorough": {"sequences": 3000000, "sequences-with-bytes-names": 3000000, "monitor:invariant.names_unique": 9000000,
+    "thorough": {"sequences": 3000000, "sequences-with-bytes-names": 3000000,
+                 "pair-sequences:same-parser-result": 70000, "pair-sequences:fresh": 70000, "monitor:invariant.names_unique": 9000000,
                  "lockstep-steps": 7000000},
 }
 SHARD_TIMEOUT = {"quick": 600, "thorough": 3000}
@@ -90,6 +95,9 @@ def plan(tier, seed):
         n = len(ALPHA) ** length
         for s, e in split(n, 16 if length == 3 else 96):
             shards.append({"w": "enum-b", "len": length, "range": [s, e]})
+    npair = 4000 if tier == "quick" else 150000
+    for i, (s, e) in enumerate(split(npair, 8 if tier == "quick" else 32)):
+        shards.append({"w": "pairs", "n": e - s, "rs": seed * 7919 + 3 + i})
     nr = 3000 if tier == "quick" else 100000
     for i, (s, e) in enumerate(split(nr, 8 if tier == "quick" else 32)):
         shards.append({"w": "random", "n": e - s, "rs": seed * 1000003 + i})
@@ -207,6 +215,68 @@ def check_invariants_builtin(fs):
 
 
 # ---- lock-step -------------------------------------------------------------------
+def check_step(fs, model, op, real, mod, before, trace, res: Result):
+    """Everything that must hold on (fs, model) right after `op`. -> (go on?, changed?)"""
+    res.count("lockstep-steps")
+    check_invariants_builtin(fs)
+    for what, detail in INV["fired"]:
+        res.violation({"monitor": "invariant", "which": what, "after": op[0]},
+                      {"sequence": trace, "detail": detail})
+    del INV["fired"][:]
+    bad = compare(real, mod, op)
+    if bad:
+        res.violation({"monitor": "postcondition", "op": op[0], "what": bad[0]},
+                      {"sequence": trace, "detail": bad[1]})
+        return False, False
+    # state agreement
+    names = [f["name"] for f in fs.filters]
+    if names != model.names():
+        res.violation({"monitor": "postcondition", "op": op[0], "what": "name-order"},
+                      {"sequence": trace, "real": names, "model": model.names()})
+        return False, False
+    flags = [f["enabled"] for f in fs.filters]
+    mflags = [m.enabled for m in model.f]
+    if flags != mflags:
+        res.violation({"monitor": "postcondition", "op": op[0], "what": "enabled-flags"},
+                      {"sequence": trace, "real": flags, "model": mflags})
+        return False, False
+    for m in model.f:
+        g = fl.call(fs.getfilter, m.name)
+        if g[0] != "ret" or g[1] is None:
+            res.violation({"monitor": "postcondition", "op": op[0],
+                           "what": "getfilter-missing"},
+                          {"sequence": trace, "name": m.name, "got": repr(g)})
+            return False, False
+        buf = io.StringIO()
+        g[1].tosieve(target=buf)
+        if buf.getvalue() != reference_text(m.d):
+            res.violation({"monitor": "postcondition", "op": op[0],
+                           "what": "getfilter-content", "enabled": m.enabled},
+                          {"sequence": trace, "name": m.name, "got": buf.getvalue(),
+                           "want": reference_text(m.d)})
+            return False, False
+    after = fl.render(fs)
+    changed = False
+    if mod is not None and mod[0] == "ret" and mod[1] is False:
+        # nothing may have changed
+        if after != before:
+            res.violation({"monitor": "postcondition", "op": op[0],
+                           "what": "refused-op-changed-the-set"},
+                          {"sequence": trace, "before": before[1][:300] if before[0] == "ret" else repr(before),
+                           "after": after[1][:300] if after[0] == "ret" else repr(after)})
+            return False, False
+    elif after != before:
+        changed = True
+    for missing in NAMES:
+        if model.idx(missing) < 0:
+            g = fl.call(fs.getfilter, missing)
+            if g != ("ret", None):
+                res.violation({"monitor": "postcondition", "op": op[0],
+                               "what": "getfilter-unknown-name"},
+                              {"sequence": trace, "name": missing, "got": repr(g)})
+    return True, changed
+
+
 def run_sequence(ops, res: Result):
     fs = fl.FiltersSet("t")
     model = fl.RList()
@@ -219,65 +289,81 @@ def run_sequence(ops, res: Result):
         trace.append(list(op))
         if real and real[0] == "skip":
             continue
-        res.count("lockstep-steps")
-        check_invariants_builtin(fs)
-        for what, detail in INV["fired"]:
-            res.violation({"monitor": "invariant", "which": what, "after": op[0]},
-                          {"sequence": trace, "detail": detail})
-        del INV["fired"][:]
-        bad = compare(real, mod, op)
-        if bad:
-            res.violation({"monitor": "postcondition", "op": op[0], "what": bad[0]},
-                          {"sequence": trace, "detail": bad[1]})
+        go, ch = check_step(fs, model, op, real, mod, before, trace, res)
+        changed = changed or ch
+        if not go:
             return changed
-        # state agreement
-        names = [f["name"] for f in fs.filters]
-        if names != model.names():
-            res.violation({"monitor": "postcondition", "op": op[0], "what": "name-order"},
-                          {"sequence": trace, "real": names, "model": model.names()})
+    return changed
+
+
+def two_sets(origin, rng):
+    """-> [(fs, model), (fs, model)]: two live sets.  origin 'fresh': two empty sets;
+    'same-parser-result': both loaded from ONE Parser result of a saved script with three
+    filters (some disabled) - the situation of two views on the same stored script."""
+    if origin == "fresh":
+        return [(fl.FiltersSet("A"), fl.RList()), (fl.FiltersSet("B"), fl.RList())]
+    seed_set = fl.FiltersSet("seed")
+    states = []
+    for i, n in enumerate(NAMES):
+        d = simple_def(100 + i)
+        seed_set.addfilter(n, list(d.conditions), list(d.actions), d.matchtype)
+        dis = rng.random() < 0.6
+        if dis:
+            seed_set.disablefilter(n)
+        states.append((n, d, not dis))
+    p = lab.sl_parser.Parser()
+    if p.parse(str(seed_set)) is not True:
+        return None
+    out = []
+    for nm in ("A", "B"):
+        fs = fl.FiltersSet(nm)
+        fs.from_parser_result(p)
+        model = fl.RList()
+        for n, d, en in states:
+            model.f.append(fl.ModelFilter(n, d, en))
+        out.append((fs, model))
+    return out
+
+
+def run_pair(steps, origin, rng, res: Result):
+    """Operations alternate between two live sets; each is compared with its own model after
+    its own steps, and the set that was NOT touched must render exactly as before."""
+    pair = two_sets(origin, rng)
+    if pair is None:
+        res.inconclusive.append("seed script of the pair stratum does not parse")
+        return False
+    trace = []
+    changed = False
+    for k, (who, op) in enumerate(steps):
+        fs, model = pair[who]
+        ofs, omodel = pair[1 - who]
+        cop = concretise(op, k)
+        before = fl.render(fs)
+        other_before = fl.render(ofs)
+        real, mod, ok = fl.apply_op(fs, model, cop)
+        trace.append(["set %s" % "AB"[who]] + list(op))
+        if real and real[0] == "skip":
+            continue
+        go, ch = check_step(fs, model, op, real, mod, before, trace, res)
+        changed = changed or ch
+        if not go:
             return changed
-        flags = [f["enabled"] for f in fs.filters]
-        mflags = [m.enabled for m in model.f]
-        if flags != mflags:
-            res.violation({"monitor": "postcondition", "op": op[0], "what": "enabled-flags"},
-                          {"sequence": trace, "real": flags, "model": mflags})
+        other_after = fl.render(ofs)
+        res.monitor("isolation-between-two-sets", other_after != other_before)
+        if other_after != other_before:
+            res.violation({"monitor": "isolation", "op": op[0], "origin": origin,
+                           "what": "operation-on-one-set-changed-another"},
+                          {"sequence": trace,
+                           "untouched_before": repr(other_before)[:300],
+                           "untouched_after": repr(other_after)[:300]})
             return changed
-        for m in model.f:
-            g = fl.call(fs.getfilter, m.name)
+        for m in omodel.f:
+            g = fl.call(ofs.getfilter, m.name)
             if g[0] != "ret" or g[1] is None:
-                res.violation({"monitor": "postcondition", "op": op[0],
-                               "what": "getfilter-missing"},
-                              {"sequence": trace, "name": m.name, "got": repr(g)})
+                res.violation({"monitor": "isolation", "op": op[0], "origin": origin,
+                               "what": "getfilter-on-untouched-set"},
+                              {"sequence": trace, "name": m.name, "got": repr(g)[:200]})
                 return changed
-            buf = io.StringIO()
-            g[1].tosieve(target=buf)
-            if buf.getvalue() != reference_text(m.d):
-                res.violation({"monitor": "postcondition", "op": op[0],
-                               "what": "getfilter-content", "enabled": m.enabled},
-                              {"sequence": trace, "name": m.name, "got": buf.getvalue(),
-                               "want": reference_text(m.d)})
-                return changed
-            if op[0] == "replace" and op[4] is not None and m.name == (op[3] or op[1]):
-                pass
-        after = fl.render(fs)
-        unknown = mod is not None and mod == ("ret", False) and op[0] != "enable"
-        if mod is not None and mod[0] == "ret" and mod[1] is False:
-            # nothing may have changed
-            if after != before:
-                res.violation({"monitor": "postcondition", "op": op[0],
-                               "what": "refused-op-changed-the-set"},
-                              {"sequence": trace, "before": before[1][:300] if before[0] == "ret" else repr(before),
-                               "after": after[1][:300] if after[0] == "ret" else repr(after)})
-                return changed
-        elif after != before:
-            changed = True
-        for missing in NAMES:
-            if model.idx(missing) < 0:
-                g = fl.call(fs.getfilter, missing)
-                if g != ("ret", None):
-                    res.violation({"monitor": "postcondition", "op": op[0],
-                                   "what": "getfilter-unknown-name"},
-                                  {"sequence": trace, "name": missing, "got": repr(g)})
     return changed
 
 
@@ -320,6 +406,17 @@ def run_shard(tier, shard, res: Result):
             res.case(repr(ops), nontrivial=ch)
             if idx % 20011 == 0:
                 res.sample({"workload": "enum", "sequence": [list(o) for o in ops]}, 2)
+    elif shard["w"] == "pairs":
+        rng = random.Random(shard["rs"])
+        for i in range(shard["n"]):
+            origin = ("fresh", "same-parser-result")[i % 2]
+            steps = [(rng.randrange(2), rng.choice(ALPHA) if rng.random() < 0.85
+                      else rng.choice(ALPHA_B)) for _ in range(rng.randint(3, 14))]
+            ch = run_pair(steps, origin, rng, res)
+            res.count("sequences")
+            res.count("pair-sequences")
+            res.count("pair-sequences:" + origin)
+            res.case(repr((origin, steps)), nontrivial=ch)
     elif shard["w"] == "enum-b":
         both = ALPHA + ALPHA_B
         s, e = shard["range"]
